@@ -14,7 +14,7 @@ EXPLANATION = (
     "an XML name was checked by validate_name; that each set_* method stores its argument unchanged into the field of its "
     "name and finalize moves exactly these fields into the descriptor; that the prototype's type attributes written and "
     "read agree; and that E57Reader::xml is exactly the bytes read and the writer writes exactly the transformer's output. "
-    "Not decided: that every XML-1.0 string survives roxmltree's parsing (whitespace handling is trusted).")
+    "Also that the string reader returns Node::text() through conversions only, that every number written is the stored field itself, and that limit values are parsed with the type of their variant. Not decided: that every XML-1.0 string survives roxmltree's parsing (whitespace handling is trusted).")
 
 
 def run(ctx):
